@@ -179,7 +179,7 @@ func TestMain(m *testing.M) {
 func TestC14a(t *testing.T) {
 	core.Run(t, core.Spec[CaseA]{
 		Property: "C14", Sub: "a",
-		Rule: "value of profile.HavocConfig generated from its yaotl struct tags (every optional block present/absent, 0-4 repeated user/Http/Smb/External blocks, lists and maps of 0-5 entries, int64 boundary and random ints, strings built from identifier-like text, quotes, backslashes, $ % { } template markers, control characters incl. NUL, Unicode incl. astral and non-NFC sequences, whole-line texts) printed with generated spelling (per character raw / \\n \\r \\t \\\" \\\\ / \\xHH per UTF-8 byte, $${ %%{, <<ID and <<-ID heredocs, numbers and booleans as literals or strings, exponent/leading-zero forms, bare or quoted labels and map keys, = or : in maps, shuffled items, # // /* */ comments, blank lines, CRLF, BOM, one-line blocks), loaded with profile.NewProfile().SetProfile; oracle: no error and every string/int/bool/list/map/label/repeated block equals the generated value. About 1 case in 150 (quick; 1 in 40 thorough) is padded at a boundary between two top-level blocks to a file size around 4 KiB / 64 KiB / 1 MiB (+-1, +-4 KiB) / 2 MiB / 4-5 MiB - either the whole file has that size or the text after the padding starts exactly at that offset - with comment lines, a block comment, blank lines, or a whole extra top-level block (WebHook with a huge heredoc, Listeners/Http with a huge Headers list, Demon/Binary with a huge ReplaceStrings map); generated blocks stand before and after the padding. Non-trivial: some string needs an escape, or a block type is repeated, or the file is padded; distinct = (#top-level blocks, repeated?, spelling classes used out of hex/heredoc/flush heredoc/template escape/number-as-string) or (file-size bucket, padding kind, mode)",
+		Rule: "value of profile.HavocConfig generated from its yaotl struct tags (every optional block present/absent, 0-4 repeated user/Http/Smb/External blocks, lists and maps of 0-5 entries, int64 boundary and random ints, strings built from identifier-like text, quotes, backslashes, $ % { } template markers, control characters incl. NUL, Unicode incl. astral and non-NFC sequences, whole-line texts) printed with generated spelling (per character raw / \\n \\r \\t \\\" \\\\ / \\xHH per UTF-8 byte, $${ %%{, <<ID and <<-ID heredocs, numbers and booleans as literals or strings, exponent/leading-zero forms, bare or quoted labels and map keys, = or : in maps, shuffled items, # // /* */ comments, blank lines, CRLF, BOM, one-line blocks), loaded with profile.NewProfile().SetProfile; oracle: no error and every string/int/bool/list/map/label/repeated block equals the generated value. About 1 case in 150 (quick; 1 in 40 thorough) is padded at a boundary between two top-level blocks to a file size around 4 KiB / 64 KiB / 1 MiB (+-1, +-4 KiB) / 2 MiB / 4-5 MiB - either the whole file has that size or the text after the padding starts exactly at that offset - with comment lines, a block comment, blank lines, or a whole extra top-level block (WebHook with a huge heredoc, Listeners/Http with a huge Headers list, Demon/Binary with a huge ReplaceStrings map); generated blocks stand before and after the padding. Non-trivial: some string needs an escape, or a block type is repeated, or the file is padded; distinct = (#top-level blocks, repeated?, spelling classes used out of hex/heredoc/flush heredoc/template escape/number-as-string) or (file-size bucket, padding kind, mode). Layout dimensions (labels spell:<class>): any block whose body holds exactly one attribute and no nested block may be written in the single-line form `Type { Name = value }` / `Type \"label\" { Name = value }` (one-line-block, one-line-block-labelled), with nothing, tabs or a /* */ comment between the braces and the attribute (one-line-block-tight, one-line-block-comment) and with a value that spans lines inside [ ] / { } (one-line-block-multiline-value); blocks without items as `Type {}` / `Type { }` / `Type {/* none */}` (empty-block-one-line); no space, tabs or a comment between the block header and its brace (block-open-odd); runs of 2-6 blank lines with comment lines between items and before a closing brace (blank-lines-multi); an attribute with its own spacing around = (none, tabs, an aligned column: eq-spacing-per-attr); a comma after the last list element / map entry (list-trailing-comma, map-trailing-comma); CRLF line ends, no newline after the last line. Only layouts the parser of the unchanged tree accepts: it rejects a nested block closed on its parent's closing line, a nested block or two attributes inside a single-line block, and a heredoc as the value of a single-line block, so those are not written for valid profiles",
 		Gen:   genA, Check: checkA, Classify: classifyA,
 		Assumptions: []string{
 			"attribute strings, list elements, map keys and values are compared after Unicode NFC: every cty string is NFC-normalised on entry (go-cty docs/types.md), which is the documented data model of the language; block labels do not pass through cty in the loader (they do in hclwrite), so a label is accepted either byte for byte or NFC-normalised",
